@@ -25,7 +25,7 @@ verdict.propfail = _pf
 res = mod.run(ctx, verdict, replay=replay)
 cov = res["coverage"]
 cov.pop("samples", None)
-print(json.dumps(cov, indent=1, default=str)[:4000])
+json.dump(cov, open("/tmp/gt/cov.json","w"), indent=1, default=str); print(json.dumps(cov, indent=1, default=str)[:4000])
 print("unexplained mismatches:", len(res["unexplained_mismatches"]))
 for u in res["unexplained_mismatches"][:3]:
     print(json.dumps(u, default=str)[:1500])
